@@ -137,7 +137,7 @@ def print_axioms(mod, names):
 
 
 # ------------------------------------------------------------------------------------------------
-def run_oracle(exe, lines, timeout=600, env=None):
+def run_oracle(exe, lines, timeout=180, env=None):
     """Feeds the lines to the oracle; a crash is attributed to the line being processed and the oracle is
     restarted after it. Returns list of outputs (same length as lines)."""
     outs = []
@@ -150,8 +150,19 @@ def run_oracle(exe, lines, timeout=600, env=None):
         if pos > 0 and header:
             pre = [header]
         # keep sticky mode lines
-        p = subprocess.run([exe], input="\n".join(pre + chunk) + "\n", stdout=subprocess.PIPE, stderr=subprocess.PIPE,
-                           text=True, timeout=timeout, env=env)
+        try:
+            p = subprocess.run([exe], input="\n".join(pre + chunk) + "\n", stdout=subprocess.PIPE, stderr=subprocess.PIPE,
+                               text=True, timeout=timeout, env=env)
+        except subprocess.TimeoutExpired as te:
+            class P:   # a hang is attributed to the line being processed, like a crash
+                pass
+            p = P()
+            so = te.stdout or ""
+            p.stdout = so.decode(errors="replace") if isinstance(so, bytes) else so
+            p.stderr = "TIMEOUT after %ds" % timeout
+            p.returncode = -99
+            if p.stdout.endswith("\n") is False and "\n" in p.stdout:
+                p.stdout = p.stdout[:p.stdout.rindex("\n") + 1]
         got = p.stdout.split("\n")
         if got and got[-1] == "":
             got.pop()
@@ -176,6 +187,8 @@ def run_oracle(exe, lines, timeout=600, env=None):
 
 
 def summarize_san(txt):
+    if txt.startswith("TIMEOUT"):
+        return "TIMEOUT(hang)"
     m = re.search(r"(ERROR: AddressSanitizer: [a-z\-]+|runtime error: [^\n]+)", txt)
     loc = re.search(r"#\d+ 0x[0-9a-f]+ in (\w+) ([^\s]+)", txt)
     s = m.group(1) if m else "no-sanitizer-report"
